@@ -398,6 +398,15 @@ def exp(x):
         (t, k), = d.items()
         if t.op == 'log' and k.denominator == 1:
             return ipow(t.args[0], k.numerator)
+    # exp(c0 + sum k_i m_i) = exp(c0) * prod exp(m_i)**k_i  for integer k_i (m_i: the monomials of the canonical form)
+    x = canon(x)
+    c0, d = _as_lin(x)
+    if d and all(k.denominator == 1 for k in d.values()) and (len(d) > 1 or c0 != 0 or next(iter(d.values())) != 1):
+        r = ONE if c0 == 0 else _mk('exp', (_mk('c', (), c0),))
+        for t, k in sorted(d.items(), key=lambda tk: tk[0].id):
+            base = t.args[0] if t.op == 'log' else _mk('exp', (t,))
+            r = mul(r, ipow(base, k.numerator))
+        return r
     return _mk('exp', (x,))
 
 
@@ -539,6 +548,11 @@ def axioms_of(nodes):
                                   cmp0(sub(ipow(t, t.val), x), '=')])]))
         elif t.op == 'exp':
             out.append(cmp0(neg(t), '<'))
+            u, = t.args
+            if u.op != 'c':
+                # exp(u) >= 1 + u (all real u);  u < 0 -> exp(u) < 1
+                out.append(cmp0(sub(add(ONE, u), t), '<='))
+                out.append(bor([cmp0(neg(u), '<='), cmp0(sub(t, ONE), '<')]))
         elif t.op == 'fn' and t.val in ('sin', 'cos') and len(t.args) == 1:
             sn, cs = fn('sin', t.args), fn('cos', t.args)
             out.append(cmp0(sub(add(mul(sn, sn), mul(cs, cs)), ONE), '='))
